@@ -49,6 +49,6 @@ META = {
             "recovery back-off in both engines, repeated graceful Stop in v2, v1 has no intentional-stop marker / shutdown gate) and on "
             "v1 a fatal failure can be finalized UserStopped (tomb bookkeeping race); fixes proposed as diffs, v1 recovery findings "
             "recorded in known_findings.json. The 'within any window' bound is proved as a bound on pending decrement timers, not on "
-            "wall-clock windows. Trusted: Lean kernel, factgen, harness, Go runtime, tomb.v2, backoff library.",
+            "wall-clock windows. Trusted: Lean kernel, factgen, harness, Go runtime, tomb.v2, backoff library. Status: F9 (v2), F17, F18, F21 are repaired in /repo; the v1 stop-marker findings, overlapping-starts, stop-during-nested-start, v1 graceful-stop deadlock and v2-start-racing-recovery-finalisation stay recorded in known_findings.json and are reported as KNOWN-FINDING lines.",
     "technique": "Lean 4 invariant proofs over an event-system model + trace acceptance / monitors against the real lifecycle services",
 }
